@@ -19,11 +19,18 @@
     schedd-accept <n> <total_in> <total_out> <ultra> <events>
         events: `;`-separated  K,t,name,wu,os,eof,pt,pd,in,scan,retr,emit,reord,order,unord,head,tail
         -> ok lines=… rchecks=… uchecks=… headdeltas=… reorderdeltas=… taildeltas=… | reject <line#> <why>
+    schedd-acceptw <n> <total_in> <total_out> <ultra> <starve_min> <events>
+        the same events (thread ids used) replayed against the projection of the
+        refined model Model.SchedDW (workers, next_task, sched_mutex, sched_cond):
+        -> ok lines=… steps=… workers=… wakeups=… signals=… exits=… | reject <line#> <why>
+        starve_min > 0: also reject when that many signalling unlocks found a
+        waiting worker and no waiter ever came back before the end (0 = off)
 -/
 import Std.Data.HashSet
 import Std.Data.HashMap
 import LbzVerif.Model.SchedD
 import LbzVerif.Lemmas.SchedD.Proj
+import LbzVerif.Lemmas.SchedD.ProjW
 
 namespace Driver.CmdSchedD
 open LbzVerif.Model.SchedD LbzVerif.Gen
@@ -304,6 +311,14 @@ def handle (cmd : String) (args : List String) : Option String :=
       | some n, some ti, some to, some u =>
         LbzVerif.Lemmas.SchedD.acceptTrace n ti to (u != 0) evs
       | _, _, _, _ => "bad-args"
+    | _ => "bad-args"
+  | "schedd-acceptw" =>
+    some <| match args with
+    | [n, ti, to, u, sm, evs] =>
+      match n.toNat?, ti.toNat?, to.toNat?, u.toNat?, sm.toNat? with
+      | some n, some ti, some to, some u, some sm =>
+        LbzVerif.Lemmas.SchedD.acceptTraceW n ti to (u != 0) sm evs
+      | _, _, _, _, _ => "bad-args"
     | _ => "bad-args"
   | _ => none
 
